@@ -59,7 +59,13 @@ func Harness_C01_batch() {
 			}
 		case 1:
 			o.code = Code(nondetInt32("code"))
-			o.err = &Error{Code: o.code, Message: "handler error"}
+			e := &Error{Code: o.code, Message: "handler error"}
+			if nondetBool("error-has-data") {
+				// any bytes a handler may have put there, valid JSON or not:
+				// the call is owed its one response either way
+				e.Data = nondetToken("errdata")
+			}
+			o.err = e
 		case 2:
 			o.err = context.DeadlineExceeded
 			o.code = DeadlineExceeded
